@@ -36,6 +36,8 @@ type fsHandle struct {
 	ino    *fsInode
 	write  bool
 	closed bool
+	off    int  // write offset
+	app    bool // O_APPEND
 }
 
 func (e *Exec) fs() *fsState {
@@ -74,6 +76,25 @@ func (e *Exec) fsFault(op string) bool {
 	k := e.pick(2)
 	e.inputs = append(e.inputs, InputVal{Call: "stub:fsfault:" + op, Vals: []uint64{uint64(k)}})
 	return k == 1
+}
+
+// writeAt writes data at the handle's offset (the end of the file with O_APPEND): bytes of a longer existing
+// content behind the written range stay (a destination opened without O_TRUNC keeps its old tail)
+func (h *fsHandle) writeAt(data []Value) {
+	old := h.ino.content
+	if h.app {
+		h.off = len(old)
+	}
+	out := append([]Value{}, old[:min(h.off, len(old))]...)
+	for len(out) < h.off {
+		out = append(out, mkInt(8, 0))
+	}
+	out = append(out, data...)
+	if h.off+len(data) < len(old) {
+		out = append(out, old[h.off+len(data):]...)
+	}
+	h.ino.content = out
+	h.off += len(data)
 }
 
 func (e *Exec) pathErr(op, path, msg string) Value {
@@ -212,6 +233,47 @@ func init() {
 		ino.content = nil // O_TRUNC on whatever the name resolves to
 		return Tuple{e.newFile(fn, 0, &fsHandle{ino: ino, write: true}), Iface{}}
 	})
+	// os.OpenFile(name, flag, perm) with concrete flags (linux values)
+	reg("os.OpenFile", func(e *Exec, fn *ssa.Function, a []Value) Value {
+		const oWRONLY, oRDWR, oCREATE, oEXCL, oTRUNC, oAPPEND = 0x1, 0x2, 0x40, 0x80, 0x200, 0x400
+		name := e.concStr(a[0], "os.OpenFile")
+		flag := e.concInt(a[1])
+		f := e.fs()
+		rname := f.resolve(name)
+		ino, ok := f.names[rname]
+		if !ok {
+			if flag&oCREATE == 0 || f.noParent[name] {
+				return Tuple{Ptr{}, e.pathErr("open", name, "no such file or directory")}
+			}
+		} else if flag&oCREATE != 0 && flag&oEXCL != 0 {
+			return Tuple{Ptr{}, e.pathErr("open", name, "file exists")}
+		}
+		write := flag&(oWRONLY|oRDWR) != 0
+		if ok && ino.isDir && write {
+			return Tuple{Ptr{}, e.pathErr("open", name, "is a directory")}
+		}
+		if !ok {
+			ino = &fsInode{id: len(f.inodes)}
+			f.inodes = append(f.inodes, ino)
+			f.names[rname] = ino
+		}
+		if flag&oTRUNC != 0 && write {
+			ino.content = nil
+		}
+		return Tuple{e.newFile(fn, 0, &fsHandle{ino: ino, write: write, app: flag&oAPPEND != 0}), Iface{}}
+	})
+	reg("(*os.File).Truncate", func(e *Exec, fn *ssa.Function, a []Value) Value {
+		h := e.handleOf(a[0])
+		n := e.concInt(a[1])
+		if h.closed || !h.write || n < 0 {
+			return e.errorValue("truncate: invalid argument")
+		}
+		for len(h.ino.content) < n {
+			h.ino.content = append(h.ino.content, mkInt(8, 0))
+		}
+		h.ino.content = h.ino.content[:n]
+		return Iface{}
+	})
 	reg("(*os.File).Close", func(e *Exec, fn *ssa.Function, a []Value) Value {
 		p := a[0].(Ptr)
 		if p.Obj == nil {
@@ -238,10 +300,10 @@ func init() {
 			if len(data) > 0 {
 				k = e.pick(len(data))
 			}
-			dst.ino.content = append(dst.ino.content, data[:k]...)
+			dst.writeAt(data[:k])
 			return Tuple{mkInt(64, uint64(k)), e.errorValue("copy: injected fault")}
 		}
-		dst.ino.content = append(dst.ino.content, data...)
+		dst.writeAt(data)
 		return Tuple{mkInt(64, uint64(len(data))), Iface{}}
 	})
 	reg("os.Rename", func(e *Exec, fn *ssa.Function, a []Value) Value {
